@@ -249,7 +249,9 @@ def recording(rec):
                     try:
                         xv, rv = float(x), float(ret)
                         want = xv * std / math.sqrt(T) if name == "get_intensity" else xv * math.sqrt(T) / std
-                        ok = _close(rv, want, rel)
+                        # a frame whose estimate is not a number (the sigma-clipped estimator on data whose squares underflow,
+                        # e.g. a slice through the far tail of a Gaussian profile) has no SNR scale: not judged
+                        ok = _close(rv, want, rel) or not math.isfinite(std) or not math.isfinite(want)
                     except Exception:
                         ok = True            # array-valued or unit-carrying argument: not projected
                 rec.events.append({"e": "Snr", "src": name, "fid": rec.fid(self), "before": before, "after": rec.est(self),
